@@ -333,39 +333,52 @@ theorem plainOf_wopsFrom (st : Bool) (ops : List HOp) : plainOf (wopsFrom st ops
     | flush =>
       cases st <;> simp [wopsFrom, plainOf, plainOfOps, ih]
 
-theorem RC.fold_sent (ops : List HOp) (c : RC) (x : Nat × Hdr) (hs : c.rw.sent = some x) (hw : c.wroteHeader = true) :
-    ops.foldl RC.step c =
+def RC.flushTail (c : RC) : RC :=
+  let c1 : RC := if c.started then { c with sched := c.sched ++ [.flush] } else c
+  { c1 with rw := c1.rw.flush }
+
+theorem RC.step_flush (fx : Bool) (c : RC) :
+    RC.step fx c .flush = RC.flushTail (if fx = true ∧ c.wroteHeader = false then c.headerStep 200 else c) := rfl
+
+theorem RC.step_header (fx : Bool) (c : RC) (s : Nat) : RC.step fx c (.header s) = c.headerStep s := rfl
+
+theorem RC.fold_sent (fx : Bool) (ops : List HOp) (c : RC) (x : Nat × Hdr) (hs : c.rw.sent = some x) (hw : c.wroteHeader = true) :
+    ops.foldl (RC.step fx) c =
       { c with started := c.started || hasWrite ops, sched := c.sched ++ wopsFrom c.started ops } := by
   induction ops generalizing c with
   | nil => simp [hasWrite, wopsFrom]
   | cons o ops ih =>
     cases o with
     | header s =>
-      have e : RC.step c (.header s) = c := by
+      have e : RC.step fx c (.header s) = c := by
         obtain ⟨rw, enc, wh, st, sc⟩ := c
         simp only at hs hw
         subst hw
-        simp [RC.step, RW.writeHeader, hs]
+        simp [RC.step, RC.headerStep, RW.writeHeader, hs]
       simp only [List.foldl_cons, e, ih c hs hw, hasWrite, wopsFrom]
     | write d =>
-      have e : RC.step c (.write d) = { c with started := true, sched := c.sched ++ [.write d] } := by
+      have e : RC.step fx c (.write d) = { c with started := true, sched := c.sched ++ [.write d] } := by
         cases hst : c.started <;> simp [RC.step, hw, hst]
       simp only [List.foldl_cons, e, hasWrite, wopsFrom]
       rw [ih _ (by simpa using hs) (by simpa using hw)]
       simp [List.append_assoc]
     | flush =>
+      have e0 : RC.step fx c .flush = RC.flushTail c := by
+        rw [RC.step_flush]; simp [hw]
       cases hst : c.started with
       | false =>
-        have e : RC.step c .flush = c := by
+        have e : RC.step fx c .flush = c := by
+          rw [e0]
           obtain ⟨rw, enc, wh, st, sc⟩ := c
           simp only at hs hw hst
           subst hst
-          simp [RC.step, RW.flush, RW.writeHeader, hs]
+          simp [RC.flushTail, RW.flush, RW.writeHeader, hs]
         simp only [List.foldl_cons, e, ih c hs hw, hasWrite, wopsFrom, hst]
         simp
       | true =>
-        have e : RC.step c .flush = { c with sched := c.sched ++ [.flush] } := by
-          simp [RC.step, hst, RW.flush, RW.writeHeader, hs]
+        have e : RC.step fx c .flush = { c with sched := c.sched ++ [.flush] } := by
+          rw [e0]
+          simp [RC.flushTail, hst, RW.flush, RW.writeHeader, hs]
         simp only [List.foldl_cons, e, hasWrite, wopsFrom]
         rw [ih _ (by simpa using hs) (by simpa using hw)]
         simp [hst, List.append_assoc]
@@ -385,54 +398,71 @@ structure RCInv (e : Str) (ops : List HOp) (c : RC) : Prop where
 theorem RCInv.init (e : Str) (ops : List HOp) : RCInv e ops ⟨⟨⟨none, none⟩, none, []⟩, e, false, false, []⟩ := by
   constructor <;> simp
 
-theorem RCInv.step {e : Str} {ops : List HOp} {c : RC} (o : HOp) (ho : o ∈ ops) (hi : RCInv e ops c) :
-    RCInv e ops (c.step o) := by
+theorem RCInv.headerStep {e : Str} {ops : List HOp} {c : RC} (s : Nat) (hs : s = 200 ∨ HOp.header s ∈ ops)
+    (hi : RCInv e ops c) : RCInv e ops (c.headerStep s) := by
   obtain ⟨⟨⟨ce, cl⟩, snt, body⟩, enc, wh, st, sc⟩ := c
   obtain ⟨i1, i2, i3, i4, i5, i6, i7⟩ := hi
   simp only at i1 i2 i3 i4 i5 i6 i7
   subst i3
-  cases o with
-  | header s =>
-    cases snt with
-    | some x =>
-      -- header already out: nothing changes except possibly the flags
-      have hwr : ∀ w : RW, w.sent = some x → w.writeHeader s = w := by
-        intro w hw; simp [RW.writeHeader, hw]
-      cases wh with
-      | true =>
-        simp only [RC.step, if_true]
-        constructor <;> simp_all [RW.writeHeader]
-      | false =>
-        by_cases h3 : s ≥ 300
-        · simp only [RC.step, h3, if_true]
-          constructor <;> simp_all [RW.writeHeader]
-        · by_cases h4 : enc ≠ [] ∧ enc ≠ identity
-          · simp only [RC.step, h3]
-            constructor <;> simp_all [RW.writeHeader, RW.setCE]
-          · simp only [RC.step, h3, h4]
-            constructor <;> simp_all [RW.writeHeader]
-    | none =>
-      have hce : ce = none := i5 rfl
-      subst hce
-      have hwh : wh = false := by
-        cases wh with
-        | false => rfl
-        | true => exact absurd rfl (i6 rfl)
-      subst hwh
+  cases snt with
+  | some x =>
+    cases wh with
+    | true =>
+      simp only [RC.headerStep, if_true]
+      constructor <;> simp_all [RW.writeHeader]
+    | false =>
       by_cases h3 : s ≥ 300
-      · simp only [RC.step, h3, if_true]
+      · simp only [RC.headerStep, h3, if_true]
         constructor <;> simp_all [RW.writeHeader]
       · by_cases h4 : enc ≠ [] ∧ enc ≠ identity
-        · simp only [RC.step, h3]
-          have he : enc = e := by
-            rcases i1 with h | h
-            · exact h
-            · exact absurd h h4.1
-          subst he
+        · simp only [RC.headerStep, h3]
           constructor <;> simp_all [RW.writeHeader, RW.setCE]
-        · simp only [RC.step, h3, h4]
+        · simp only [RC.headerStep, h3, h4]
           constructor <;> simp_all [RW.writeHeader]
+  | none =>
+    have hce : ce = none := i5 rfl
+    subst hce
+    have hwh : wh = false := by
+      cases wh with
+      | false => rfl
+      | true => exact absurd rfl (i6 rfl)
+    subst hwh
+    by_cases h3 : s ≥ 300
+    · simp only [RC.headerStep, h3, if_true]
+      constructor <;> simp_all [RW.writeHeader]
+    · by_cases h4 : enc ≠ [] ∧ enc ≠ identity
+      · simp only [RC.headerStep, h3]
+        have he : enc = e := by
+          rcases i1 with h | h
+          · exact h
+          · exact absurd h h4.1
+        subst he
+        constructor <;> simp_all [RW.writeHeader, RW.setCE]
+      · simp only [RC.headerStep, h3, h4]
+        constructor <;> simp_all [RW.writeHeader]
+
+theorem RCInv.flushTail {e : Str} {ops : List HOp} {c : RC} (hi : RCInv e ops c) : RCInv e ops c.flushTail := by
+  obtain ⟨⟨⟨ce, cl⟩, snt, body⟩, enc, wh, st, sc⟩ := c
+  obtain ⟨i1, i2, i3, i4, i5, i6, i7⟩ := hi
+  simp only at i1 i2 i3 i4 i5 i6 i7
+  subst i3
+  cases st <;> cases snt <;> simp only [RC.flushTail] <;> constructor <;> simp_all [RW.flush, RW.writeHeader]
+
+theorem RCInv.step {e : Str} {ops : List HOp} {c : RC} (fx : Bool) (o : HOp) (ho : o ∈ ops) (hi : RCInv e ops c) :
+    RCInv e ops (c.step fx o) := by
+  cases o with
+  | header s => exact RCInv.headerStep s (Or.inr ho) hi
+  | flush =>
+    rw [RC.step_flush]
+    apply RCInv.flushTail
+    split
+    · exact RCInv.headerStep 200 (Or.inl rfl) hi
+    · exact hi
   | write d =>
+    obtain ⟨⟨⟨ce, cl⟩, snt, body⟩, enc, wh, st, sc⟩ := c
+    obtain ⟨i1, i2, i3, i4, i5, i6, i7⟩ := hi
+    simp only at i1 i2 i3 i4 i5 i6 i7
+    subst i3
     cases st with
     | true =>
       simp only [RC.step, if_true]
@@ -450,23 +480,32 @@ theorem RCInv.step {e : Str} {ops : List HOp} {c : RC} (o : HOp) (ho : o ∈ ops
         | none =>
           simp only [RC.step]
           constructor <;> simp_all [RW.writeHeader, RW.setCE]
-  | flush =>
-    cases st <;> cases snt <;> simp only [RC.step] <;> constructor <;> simp_all [RW.flush, RW.writeHeader]
 
-theorem RCInv.fold {e : Str} {all : List HOp} (ops : List HOp) (hsub : ∀ o ∈ ops, o ∈ all) (c : RC)
-    (hi : RCInv e all c) : RCInv e all (ops.foldl RC.step c) := by
+theorem RCInv.fold {e : Str} {all : List HOp} (fx : Bool) (ops : List HOp) (hsub : ∀ o ∈ ops, o ∈ all) (c : RC)
+    (hi : RCInv e all c) : RCInv e all (ops.foldl (RC.step fx) c) := by
   induction ops generalizing c with
   | nil => exact hi
   | cons o ops ih =>
     simp only [List.foldl_cons]
-    exact ih (fun o' h => hsub o' (List.mem_cons_of_mem _ h)) _ (RCInv.step o (hsub o (List.mem_cons_self ..)) hi)
+    exact ih (fun o' h => hsub o' (List.mem_cons_of_mem _ h)) _ (RCInv.step fx o (hsub o (List.mem_cons_self ..)) hi)
 
 /-- the compressor on a fresh writer -/
 def rc0 (e : Str) : RC := ⟨⟨⟨none, none⟩, none, []⟩, e, false, false, []⟩
 
-theorem RC.finish_sent (C : Codecs) (c : RC) (x : Nat × Hdr) (h : c.rw.sent = some x) :
-    c.finish C = { c.rw with body := if c.started then (C.ofStr c.encoding).enc c.sched else [] } := by
-  simp [RC.finish, RW.writeHeader, h]
+/-- the body the compressor leaves behind at `Close` -/
+def RC.finalBody (fx : Bool) (C : Codecs) (c : RC) : Bytes :=
+  if c.started then (C.ofStr c.encoding).enc c.sched
+  else if fx = true ∧ c.wroteHeader = true ∧ c.encoding ≠ [] ∧ c.encoding ≠ identity then
+    (C.ofStr c.encoding).enc (c.sched ++ [.write []])
+  else []
+
+theorem RC.finish_sent (fx : Bool) (C : Codecs) (c : RC) (x : Nat × Hdr) (h : c.rw.sent = some x) :
+    c.finish fx C = { c.rw with body := c.finalBody fx C } := by
+  obtain ⟨rw, enc, wh, st, sc⟩ := c
+  simp only at h
+  unfold RC.finish RC.finalBody
+  cases st <;> cases fx <;> cases wh <;> by_cases h1 : enc = [] <;> by_cases h2 : enc = identity <;>
+    simp [RW.writeHeader, h, h1, h2]
 
 theorem ofStr_nil (C : Codecs) : C.ofStr [] = idCodec := by
   simp [Codecs.ofStr, codingOf_nil, Codecs.of]
@@ -477,102 +516,112 @@ theorem plainOfOps_of_not_hasWrite (ops : List HOp) (h : hasWrite ops = false) :
   | cons o ops ih => cases o <;> simp_all [hasWrite, plainOfOps]
 
 /-- no operation at all: net/http sends 200 with an empty body and no Content-Encoding -/
-theorem RC.run_nil (C : Codecs) (e : Str) :
-    (([] : List HOp).foldl RC.step (rc0 e)).finish C = ⟨⟨none, none⟩, some (200, ⟨none, none⟩), []⟩ := by
+theorem RC.run_nil (fx : Bool) (C : Codecs) (e : Str) :
+    (([] : List HOp).foldl (RC.step fx) (rc0 e)).finish fx C = ⟨⟨none, none⟩, some (200, ⟨none, none⟩), []⟩ := by
   simp [rc0, RC.finish, RW.writeHeader]
 
 /-- first operation `WriteHeader(s)` with `s ≥ 300`: the answer is not compressed -/
-theorem RC.run_header_err (C : Codecs) (e : Str) (s : Nat) (rest : List HOp) (hs : 300 ≤ s) :
-    ((HOp.header s :: rest).foldl RC.step (rc0 e)).finish C
+theorem RC.run_header_err (fx : Bool) (C : Codecs) (e : Str) (s : Nat) (rest : List HOp) (hs : 300 ≤ s) :
+    ((HOp.header s :: rest).foldl (RC.step fx) (rc0 e)).finish fx C
       = ⟨⟨none, none⟩, some (s, ⟨none, none⟩), plainOfOps rest⟩ := by
-  have h1 : RC.step (rc0 e) (.header s) = ⟨⟨⟨none, none⟩, some (s, ⟨none, none⟩), []⟩, [], true, false, []⟩ := by
-    simp [RC.step, rc0, hs, RW.writeHeader]
+  have h1 : RC.step fx (rc0 e) (.header s) = ⟨⟨⟨none, none⟩, some (s, ⟨none, none⟩), []⟩, [], true, false, []⟩ := by
+    simp [RC.step, RC.headerStep, rc0, hs, RW.writeHeader]
   simp only [List.foldl_cons, h1]
-  rw [RC.fold_sent rest _ (s, ⟨none, none⟩) rfl rfl, RC.finish_sent C _ (s, ⟨none, none⟩) rfl]
-  simp only [Bool.false_or, List.nil_append, ofStr_nil]
+  rw [RC.fold_sent fx rest _ (s, ⟨none, none⟩) rfl rfl, RC.finish_sent fx C _ (s, ⟨none, none⟩) rfl]
+  simp only [RC.finalBody, Bool.false_or, List.nil_append, ofStr_nil]
   cases hw : hasWrite rest with
   | true => simp [idCodec, plainOf_wopsFrom]
   | false => simp [plainOfOps_of_not_hasWrite rest hw]
 
-/-- first operation `WriteHeader(s)` with `s < 300`: Content-Encoding is announced at once -/
-theorem RC.run_header_ok (C : Codecs) (e : Str) (s : Nat) (rest : List HOp) (hs : s < 300)
+/-- first operation `WriteHeader(s)` with `s < 300`: Content-Encoding is announced at once; without any
+    `Write` the body stays empty (before the repair) / is the coding's empty stream (after) -/
+theorem RC.run_header_ok (fx : Bool) (C : Codecs) (e : Str) (s : Nat) (rest : List HOp) (hs : s < 300)
     (he : e ≠ [] ∧ e ≠ identity) :
-    ((HOp.header s :: rest).foldl RC.step (rc0 e)).finish C
+    ((HOp.header s :: rest).foldl (RC.step fx) (rc0 e)).finish fx C
       = ⟨⟨some e, none⟩, some (s, ⟨some e, none⟩),
-          if hasWrite rest then (C.ofStr e).enc (wopsFrom false rest) else []⟩ := by
+          if hasWrite rest then (C.ofStr e).enc (wopsFrom false rest)
+          else if fx then (C.ofStr e).enc (wopsFrom false rest ++ [.write []]) else []⟩ := by
   have h3 : ¬ s ≥ 300 := by omega
-  have h1 : RC.step (rc0 e) (.header s)
+  have h1 : RC.step fx (rc0 e) (.header s)
       = ⟨⟨⟨some e, none⟩, some (s, ⟨some e, none⟩), []⟩, e, true, false, []⟩ := by
-    simp [RC.step, rc0, h3, he, RW.writeHeader, RW.setCE]
+    simp [RC.step, RC.headerStep, rc0, h3, he, RW.writeHeader, RW.setCE]
   simp only [List.foldl_cons, h1]
-  rw [RC.fold_sent rest _ (s, ⟨some e, none⟩) rfl rfl, RC.finish_sent C _ (s, ⟨some e, none⟩) rfl]
-  simp
+  rw [RC.fold_sent fx rest _ (s, ⟨some e, none⟩) rfl rfl, RC.finish_sent fx C _ (s, ⟨some e, none⟩) rfl]
+  cases hw : hasWrite rest <;> cases fx <;> simp [RC.finalBody, hw, he]
 
 /-- first operation `Write(d)`: 200, Content-Encoding announced, everything goes through the compressor -/
-theorem RC.run_write (C : Codecs) (e : Str) (d : Bytes) (rest : List HOp) :
-    ((HOp.write d :: rest).foldl RC.step (rc0 e)).finish C
+theorem RC.run_write (fx : Bool) (C : Codecs) (e : Str) (d : Bytes) (rest : List HOp) :
+    ((HOp.write d :: rest).foldl (RC.step fx) (rc0 e)).finish fx C
       = ⟨⟨some e, none⟩, some (200, ⟨some e, none⟩), (C.ofStr e).enc (.write d :: wopsFrom true rest)⟩ := by
-  have h1 : RC.step (rc0 e) (.write d)
+  have h1 : RC.step fx (rc0 e) (.write d)
       = ⟨⟨⟨some e, none⟩, some (200, ⟨some e, none⟩), []⟩, e, true, true, [.write d]⟩ := by
     simp [RC.step, rc0, RW.writeHeader, RW.setCE]
   simp only [List.foldl_cons, h1]
-  rw [RC.fold_sent rest _ (200, ⟨some e, none⟩) rfl rfl, RC.finish_sent C _ (200, ⟨some e, none⟩) rfl]
-  simp
+  rw [RC.fold_sent fx rest _ (200, ⟨some e, none⟩) rfl rfl, RC.finish_sent fx C _ (200, ⟨some e, none⟩) rfl]
+  simp [RC.finalBody]
 
-/-- **the defect**: first operation `Flush()`, then `Write(d)`: the header went out without
-    Content-Encoding, the body is compressed all the same -/
+/-- **the defect (before the repair)**: first operation `Flush()`, then `Write(d)`: the header went out
+    without Content-Encoding, the body is compressed all the same -/
 theorem RC.run_flush_write (C : Codecs) (e : Str) (d : Bytes) (rest : List HOp) :
-    ((HOp.flush :: HOp.write d :: rest).foldl RC.step (rc0 e)).finish C
+    ((HOp.flush :: HOp.write d :: rest).foldl (RC.step false) (rc0 e)).finish false C
       = ⟨⟨some e, none⟩, some (200, ⟨none, none⟩), (C.ofStr e).enc (.write d :: wopsFrom true rest)⟩ := by
-  have h1 : RC.step (RC.step (rc0 e) .flush) (.write d)
+  have h1 : RC.step false (RC.step false (rc0 e) .flush) (.write d)
       = ⟨⟨⟨some e, none⟩, some (200, ⟨none, none⟩), []⟩, e, true, true, [.write d]⟩ := by
     simp [RC.step, rc0, RW.writeHeader, RW.setCE, RW.flush]
   simp only [List.foldl_cons, h1]
-  rw [RC.fold_sent rest _ (200, ⟨none, none⟩) rfl rfl, RC.finish_sent C _ (200, ⟨none, none⟩) rfl]
-  simp
+  rw [RC.fold_sent false rest _ (200, ⟨none, none⟩) rfl rfl, RC.finish_sent false C _ (200, ⟨none, none⟩) rfl]
+  simp [RC.finalBody]
+
+/-- **after the repair**: a first `Flush()` acts like `WriteHeader(200)` -/
+theorem RC.run_flush_fixed (C : Codecs) (e : Str) (rest : List HOp) (he : e ≠ [] ∧ e ≠ identity) :
+    ((HOp.flush :: rest).foldl (RC.step true) (rc0 e)).finish true C
+      = ((HOp.header 200 :: rest).foldl (RC.step true) (rc0 e)).finish true C := by
+  have h1 : RC.step true (rc0 e) .flush = RC.step true (rc0 e) (.header 200) := by
+    simp [RC.step, RC.headerStep, rc0, he, RW.writeHeader, RW.setCE, RW.flush]
+  simp only [List.foldl_cons, h1]
 
 /-! ### the middleware -/
 
-theorem middleware_refuse (C : Codecs) (next : Handler) (preCL : Option Nat) (r : Req)
-    (h : requestCoding r = none) : middleware C next preCL r = httpError 415 msg415 := by
-  simp [middleware, h]
+theorem middleware_refuse (fx : Bool) (C : Codecs) (next : Handler) (preCL : Option Nat) (r : Req)
+    (h : requestCoding r = none) : middlewareG fx C next preCL r = httpError 415 msg415 := by
+  simp [middlewareG, h]
 
-theorem middleware_badopen (C : Codecs) (next : Handler) (preCL : Option Nat) (r : Req) (k : Coding)
+theorem middleware_badopen (fx : Bool) (C : Codecs) (next : Handler) (preCL : Option Nat) (r : Req) (k : Coding)
     (h : requestCoding r = some k) (ho : (C.of k).opens r.body.1 = false) :
-    middleware C next preCL r = httpError 400 msg400 := by
-  simp [middleware, h, ho]
+    middlewareG fx C next preCL r = httpError 400 msg400 := by
+  simp [middlewareG, h, ho]
 
-theorem middleware_plain (C : Codecs) (next : Handler) (preCL : Option Nat) (r : Req) (k : Coding)
+theorem middleware_plain (fx : Bool) (C : Codecs) (next : Handler) (preCL : Option Nat) (r : Req) (k : Coding)
     (h : requestCoding r = some k) (ho : (C.of k).opens r.body.1 = true)
     (he : responseEncoding r = []) :
-    middleware C next preCL r =
+    middlewareG fx C next preCL r =
       ⟨statusOfOps (next (readAll (C.of k) r.body)), none, acceptedEncodings, preCL,
         plainOfOps (next (readAll (C.of k) r.body)), some (readAll (C.of k) r.body)⟩ := by
-  simp [middleware, h, ho, he, RW.fold_fresh, respOf]
+  simp [middlewareG, h, ho, he, RW.fold_fresh, respOf]
 
-theorem middleware_compressed (C : Codecs) (next : Handler) (preCL : Option Nat) (r : Req) (k : Coding)
+theorem middleware_compressed (fx : Bool) (C : Codecs) (next : Handler) (preCL : Option Nat) (r : Req) (k : Coding)
     (h : requestCoding r = some k) (ho : (C.of k).opens r.body.1 = true)
     (he : responseEncoding r ≠ []) :
-    middleware C next preCL r =
-      respOf (((next (readAll (C.of k) r.body)).foldl RC.step (rc0 (responseEncoding r))).finish C)
+    middlewareG fx C next preCL r =
+      respOf (((next (readAll (C.of k) r.body)).foldl (RC.step fx) (rc0 (responseEncoding r))).finish fx C)
         (some (readAll (C.of k) r.body)) := by
   have hne : responseEncoding r ≠ identity := by
     rcases selectEncoding_cases (headerGet r.ae) with h1 | h1 | h1
     · exact absurd h1 he
     · show selectEncoding _ ≠ identity; rw [h1]; exact Ne.symm identity_ne_gzip
     · show selectEncoding _ ≠ identity; rw [h1]; exact Ne.symm identity_ne_snappy
-  simp [middleware, h, ho, he, hne, rc0, RW.setCL]
+  simp [middlewareG, h, ho, he, hne, rc0, RW.setCL]
 
 theorem respOf_ran (w : RW) (ran : Option Read) : (respOf w ran).ran = ran := by
   unfold respOf; split <;> rfl
 
 /-- whatever the handler does, the handler's view of the request body is fixed by the request alone -/
-theorem middleware_ran (C : Codecs) (next : Handler) (preCL : Option Nat) (r : Req) (k : Coding)
+theorem middleware_ran (fx : Bool) (C : Codecs) (next : Handler) (preCL : Option Nat) (r : Req) (k : Coding)
     (h : requestCoding r = some k) (ho : (C.of k).opens r.body.1 = true) :
-    (middleware C next preCL r).ran = some (readAll (C.of k) r.body) := by
+    (middlewareG fx C next preCL r).ran = some (readAll (C.of k) r.body) := by
   by_cases he : responseEncoding r = []
-  · rw [middleware_plain C next preCL r k h ho he]
-  · rw [middleware_compressed C next preCL r k h ho he, respOf_ran]
+  · rw [middleware_plain fx C next preCL r k h ho he]
+  · rw [middleware_compressed fx C next preCL r k h ho he, respOf_ran]
 
 /-! ### the client's decoding -/
 
@@ -626,3 +675,21 @@ theorem requestCoding_name (k : Coding) (ae : List Str) (b : Stream) :
     requestCoding ⟨[codingName k], ae, b⟩ = some k := by
   show codingOf (headerGet [codingName k]) = some k
   cases k <;> decide
+
+/-- the answer the compressor leaves behind, read off its writer -/
+theorem respOf_finish (fx : Bool) (C : Codecs) (c : RC) (ran : Option Read) :
+    respOf (c.finish fx C) ran =
+      match c.rw.sent with
+      | some (s, h) => ⟨s, h.ce, acceptedEncodings, h.cl, c.finalBody fx C, ran⟩
+      | none => ⟨200, c.rw.hdr.ce, acceptedEncodings, c.rw.hdr.cl, c.finalBody fx C, ran⟩ := by
+  cases hs : c.rw.sent with
+  | some x =>
+    obtain ⟨s, h⟩ := x
+    rw [RC.finish_sent fx C c (s, h) hs]
+    simp [respOf, hs]
+  | none =>
+    obtain ⟨rw, enc, wh, st, sc⟩ := c
+    simp only at hs
+    unfold RC.finish RC.finalBody
+    cases st <;> cases fx <;> cases wh <;> by_cases h1 : enc = [] <;> by_cases h2 : enc = identity <;>
+      simp [respOf, RW.writeHeader, hs, h1, h2]
